@@ -32,8 +32,8 @@ def run(tier):
     chk.assumptions += ["the backend variant used here answers is_in_same_sandbox exactly (three-argument form); mask-based "
                         "plugins may refuse application ranges that cross an aligned block, which is the plugin's choice",
                         "copy_and_verify_buffer_address is given a byte count on char-sized pointees",
-                        "unverified_safe_pointer_because: must abort if count elements of the smaller of host/guest size do "
-                        "not fit, must succeed if count elements of the larger do"]
+                        "unverified_safe_pointer_because: the elements counted are elements of the raw pointer type handed "
+                        "back (host size); must succeed once count elements of the larger of host/guest size fit"]
     return chk.finish(rule="one evaluation = one bulk operation (outcome, changed-byte interval of the whole region, red zones, "
                            "effect) judged by TLC (RangeOpAllowed); distinct_nontrivial = distinct (operation, variant, outcome, "
                            "start) combinations")
